@@ -241,7 +241,8 @@ fn main() {
             // over collections with null elements whose right-hand side ends in a call
             let rows = serde_json::json!({"rows": [{"id": "a", "laps": [3, 9, 4], "meta": {"rank": 2, "r k": 5}}, {"id": "b", "laps": [7, 1], "meta": {"rank": 1, "r k": 5}},
                                                    {"id": "c", "laps": [2, 2, 8], "meta": {"rank": 3, "r k": 1}}, {"id": "d", "laps": [5], "meta": {"rank": 2, "r k": 0}}],
-                                          "mixed": [{"a": 1}, null, {"a": "x"}, {"b": 2}, 7, [1], {"a": null}], "ns": [{"n": -1}, null, {"n": 2}]});
+                                          "mixed": [{"a": 1}, null, {"a": "x"}, {"b": 2}, 7, [1], {"a": null}], "ns": [{"n": -1}, null, {"n": 2}],
+                                          "nums_as_text": ["007", "-01", "00", "-0", "+1", "1.", ".5", "1e5", "0x10", " 1", "1 ", "1_000", "12abc", "-", "0.0", "-0.0", "1E2", "01.5", "9223372036854775808", "1e999", "", "١٢", "1e-999", "0e0", "-0e0", "000", "1.0", "10"]});
             const KEYS: [&str; 18] = ["laps[-1]", "laps[0]", "laps[-2]", "laps[1:] | [0]", "laps | [-1]", "meta.rank", "meta.\"r k\"", "abs(laps[-1])", "laps[-1] || `0`", "length(laps)", "id",
                                       "to_string(laps[-1])", "[laps[-1]][0]", "@.laps[-1]", "laps[?@ > `2`] | [0]", "not_null(missing, laps[0])", "laps[-3]", "sum(laps)"];
             let key = KEYS[rng.below(KEYS.len())];
@@ -251,6 +252,12 @@ fn main() {
             for start in ["mixed[*]", "mixed[]", "mixed[0:]", "ns[*]", "mixed[?@ != `7`]"] {
                 texts.push(format!("{}.{}", start, tail));
             }
+            // an unknown function whose own arguments fail (the failure of the argument comes first), and numeric-looking
+            // strings through to_number (what is not a JSON number is null, in every build)
+            const UNKNOWN: [&str; 8] = ["nope(abs(rows[0].id))", "nope(nope2(@))", "abs(nope(@), rows)", "nope(`1`, abs('x'))", "length(nope(abs('x')))", "rows[*].nope(abs(id))", "nope(rows[::0])", "nope(length())"];
+            texts.push(UNKNOWN[rng.below(UNKNOWN.len())].to_string());
+            texts.push("map(&to_number(@), `[\"007\", \"-01\", \"00\", \"-0\", \"+1\", \"1.\", \".5\", \"1e5\", \"0x10\", \" 1\", \"1_000\", \"12abc\", \"-\", \"0.0\", \"-0.0\", \"1E2\", \"01.5\", \"9223372036854775808\", \"1e999\", \"\"]`)".to_string());
+            texts.push("map(&to_number(@), nums_as_text)".to_string());
             for (bk, bt) in texts.iter().enumerate() {
                 match jmespath::compile(bt) {
                     Ok(be) => {
